@@ -208,6 +208,13 @@ EpNAccept(e) ==
 (* C11-epN-slide-long-scalar: ep<N>_mul_slide recodes the scalar AS GIVEN  *)
 (* into a buffer of RLC_FP_BITS + 1 windows: every |k| of more than        *)
 (* RLC_FP_BITS + 1 bits throws (no reduction modulo the group order).      *)
+(*                                                                         *)
+(* C11-epN-sim-long-scalar: ep<N>_mul_sim_inter (= ep<N>_mul_sim),         *)
+(* _mul_sim_trick, _mul_sim_joint, _mul_sim_gen and ep<N>_mul_fix_lwnaf    *)
+(* (= ep4 / ep8 _mul_fix) recode the scalars AS GIVEN into buffers of      *)
+(* 2 * RLC_FP_BITS (+ 1) digits: a scalar of more than 2 * RLC_FP_BITS     *)
+(* bits (possible up to BN_PRECI) throws ERR_NO_BUFFER; the ep2 routines   *)
+(* reduce modulo the group order first.                                    *)
 (***************************************************************************)
 SimTableInf(e, cx) ==
     LET c == cx.c
@@ -221,10 +228,11 @@ SimTableInf(e, cx) ==
                 /\ XAdd(XMulB(BFromNat(i), P, c), XMulB(BFromNat(j), Q, c), c).inf
 
 Threw(e) == e.crash = 0 /\ e.err # 0 /\ e.code = 1
+LongOps == {"mul_sim", "mul_sim_inter", "mul_sim_trick", "mul_sim_joint", "mul_sim_gen", "mul_fix", "mul_fix_lwnaf"}
 
 EpNKnownKey(e) ==
     IF e.op \in {"curve_probe", "restart", "BADCURVE"} THEN ""
-    ELSE IF e.g \notin {"cmp", "norm_sim", "mul_sim_joint", "mul_sim_trick", "mul_slide"} \/ ~TowerOk(e) THEN ""
+    ELSE IF e.g \notin ({"cmp", "norm_sim", "mul_slide"} \cup LongOps) \/ ~TowerOk(e) THEN ""
     ELSE
     LET cx == Cx(e) IN
     CASE /\ e.g = "cmp" /\ AnyRep(e, cx, e.P) /\ AnyRep(e, cx, e.Q) /\ Ok(e)
@@ -249,5 +257,11 @@ EpNKnownKey(e) ==
          /\ BBits(e.k.d) > e.fpb + 1
          /\ Threw(e)
             -> "C11-epN-slide-long-scalar"
+      [] /\ e.g \in LongOps
+         /\ RepOk(e, cx, e.P, SysOf(e)) /\ OnC(cx, e.P)
+         /\ (e.g \in SimOps => RepOk(e, cx, e.Q, SysOf(e)) /\ OnC(cx, e.Q))
+         /\ (IF e.g \in SimOps THEN BBits(e.k.d) > 2 * e.fpb \/ BBits(e.m.d) > 2 * e.fpb ELSE BBits(e.k.d) > 2 * e.fpb)
+         /\ Threw(e)
+            -> "C11-epN-sim-long-scalar"
       [] OTHER -> ""
 =============================================================================
